@@ -438,6 +438,23 @@ func (sc *scen) drain() []fwdMsg {
 					sc.monf("fidelity:message-fields", "message for body %d differs from the emitted log: %+v vs %+v", f.Body, f, *l)
 				}
 			}
+			// the timestamp is the time of a block the log was announced in (primary path) or of the block its receipt names (re-observation)
+			if l := sc.logs[f.Body]; l != nil {
+				okTS := false
+				for k := range sc.insts {
+					if int(k[0]) == l.Tx && int(k[2]) == l.Em && k[3] == l.Seq && blockTimeOf(hID(kindBlock, k[1])) == f.TS {
+						okTS = true
+					}
+				}
+				sc.sim.mu.Lock()
+				if r := sc.sim.rcpts[l.Tx]; r != nil && blockTimeOf(hID(kindBlock, uint64(r.BH))) == f.TS {
+					okTS = true
+				}
+				sc.sim.mu.Unlock()
+				if !okTS {
+					sc.monf("fidelity:timestamp", "message for body %d (tx %d) carries timestamp %d, which is not the time of any block this log was reported in", f.Body, l.Tx, f.TS)
+				}
+			}
 			out = append(out, f)
 		default:
 			return out
